@@ -14,6 +14,7 @@ from fractions import Fraction
 
 from ..common import MachineryError, frame
 from .frames import classify_exc
+from . import history
 
 HALF_E12 = Fraction(1, 2 * 10 ** 12)
 CFGTYPES = None  # name -> type of the configuration database (set by the property module before forking)
@@ -343,6 +344,7 @@ def obs_c02(case):
     lay = case["lay"]
     P = bytes.fromhex(case["P"])
     m, cls, mid, pbf = lay["m"], lay["cls"], lay["id"], 1 if lay["pbf"] else 0
+    history.run(case.get("hist"))
     msg, out, _ = parse_payload(m, cls, mid, pbf, P)
     ev = {"prop": case.get("prop", "C02"), "m": m, "cls": cls, "id": mid, "pbf": pbf, "P": list(P), "intended": lay["name"],
           "out": out, "identity": "", "attrs": []}
